@@ -34,7 +34,8 @@ struct Material {
     raw: Vec<u8>,
     /// standards-conformant SPKI (RFC 8410 / 5480 / 8017)
     spki_std: Vec<u8>,
-    pk8: &'static [u8],
+    /// PKCS#8 private key, where the library can load one (ring signs with <= 4096 bits)
+    pk8: Option<&'static [u8]>,
 }
 
 fn spki_ed25519_rfc8410(raw: &[u8]) -> Vec<u8> {
@@ -54,12 +55,12 @@ fn materials() -> Vec<Material> {
     for i in 0..6 {
         let k = keys::ed(i);
         let raw = k.public().as_bytes().to_vec();
-        v.push(Material { name: format!("ed{}", i + 1), keytype: "ed25519", scheme: "ed25519", scheme_enum: SignatureScheme::Ed25519, public_text: util::hex(&raw), spki_std: spki_ed25519_rfc8410(&raw), raw, pk8: keys::ED_PK8[i] });
+        v.push(Material { name: format!("ed{}", i + 1), keytype: "ed25519", scheme: "ed25519", scheme_enum: SignatureScheme::Ed25519, public_text: util::hex(&raw), spki_std: spki_ed25519_rfc8410(&raw), raw, pk8: Some(keys::ED_PK8[i]) });
     }
     for i in 0..3 {
         let k = keys::get(["ec1", "ec2", "ec3"][i]);
         let raw = k.public().as_bytes().to_vec();
-        v.push(Material { name: format!("ec{}", i + 1), keytype: "ecdsa", scheme: "ecdsa-sha2-nistp256", scheme_enum: SignatureScheme::EcdsaP256Sha256, public_text: util::hex(&raw), spki_std: spki_p256_rfc5480(&raw), raw, pk8: keys::EC_PK8[i] });
+        v.push(Material { name: format!("ec{}", i + 1), keytype: "ecdsa", scheme: "ecdsa-sha2-nistp256", scheme_enum: SignatureScheme::EcdsaP256Sha256, public_text: util::hex(&raw), spki_std: spki_p256_rfc5480(&raw), raw, pk8: Some(keys::EC_PK8[i]) });
     }
     for (i, (n, scheme, se)) in [
         ("rsa2048a", "rsassa-pss-sha256", SignatureScheme::RsaSsaPssSha256),
@@ -73,7 +74,14 @@ fn materials() -> Vec<Material> {
     {
         let spki = keys::RSA_SPKI[i].to_vec();
         let raw = olpc::rsa_pkcs1_from_spki(&spki).unwrap();
-        v.push(Material { name: n.to_string(), keytype: "rsa", scheme, scheme_enum: se, public_text: olpc::pem_public(&spki), raw, spki_std: spki, pk8: keys::RSA_PK8[i] });
+        v.push(Material { name: n.to_string(), keytype: "rsa", scheme, scheme_enum: se, public_text: olpc::pem_public(&spki), raw, spki_std: spki, pk8: Some(keys::RSA_PK8[i]) });
+    }
+    // more sizes: 3072 bits, and 8192 bits (the largest the verification algorithms take)
+    for (n, spki) in keys::RSA_MORE_SPKI {
+        let spki = spki.to_vec();
+        let raw = olpc::rsa_pkcs1_from_spki(&spki).unwrap();
+        let pk8 = if n == "rsa3072" { Some(keys::RSA_3072_PK8) } else { None };
+        v.push(Material { name: n.to_string(), keytype: "rsa", scheme: "rsassa-pss-sha256", scheme_enum: SignatureScheme::RsaSsaPssSha256, public_text: olpc::pem_public(&spki), raw, spki_std: spki, pk8 });
     }
     v
 }
@@ -95,7 +103,9 @@ fn check_paths(acc: &mut Acc, m: &Material) {
             Guard::Panicked(l, msg) => Err(format!("PANIC {l}: {msg}")),
         }
     };
-    paths.push(("from_pkcs8".into(), g(&|| PrivateKey::from_pkcs8(m.pk8, m.scheme_enum.clone()).map(|k| k.public().clone())), default.map(|d| d.to_vec())));
+    if let Some(pk8) = m.pk8 {
+        paths.push(("from_pkcs8".into(), g(&|| PrivateKey::from_pkcs8(pk8, m.scheme_enum.clone()).map(|k| k.public().clone())), default.map(|d| d.to_vec())));
+    }
     paths.push(("from_spki(standard DER)".into(), g(&|| PublicKey::from_spki(&m.spki_std, m.scheme_enum.clone())), default.map(|d| d.to_vec())));
     paths.push(("from_pem_spki(standard PEM)".into(), g(&|| PublicKey::from_pem_spki(&pem_of(&m.spki_std), m.scheme_enum.clone())), default.map(|d| d.to_vec())));
     match m.keytype {
@@ -123,7 +133,9 @@ fn check_paths(acc: &mut Acc, m: &Material) {
         }
         _ => {
             let (on, oe) = if m.scheme == "rsassa-pss-sha256" { ("rsassa-pss-sha512", SignatureScheme::RsaSsaPssSha512) } else { ("rsassa-pss-sha256", SignatureScheme::RsaSsaPssSha256) };
-            other_scheme.push(("from_pkcs8[other PSS digest]".into(), g(&|| PrivateKey::from_pkcs8(m.pk8, oe.clone()).map(|k| k.public().clone())), on));
+            if let Some(pk8) = m.pk8 {
+                other_scheme.push(("from_pkcs8[other PSS digest]".into(), g(&|| PrivateKey::from_pkcs8(pk8, oe.clone()).map(|k| k.public().clone())), on));
+            }
             other_scheme.push(("from_spki[other PSS digest]".into(), g(&|| PublicKey::from_spki(&m.spki_std, oe.clone())), on));
             let j = json!({"keytype": "rsa", "scheme": on, "keyid_hash_algorithms": DEFAULT_ALGS, "keyval": {"public": m.public_text}}).to_string();
             other_scheme.push(("json[other PSS digest]".into(), match guard(|| serde_json::from_str::<PublicKey>(&j)) {
@@ -247,6 +259,77 @@ fn check_paths(acc: &mut Acc, m: &Material) {
                 }
             }
         }
+    }
+}
+
+/// Externally made signatures: each RSA size, imported on each path, verifies the OpenSSL-made
+/// RSASSA-PSS signature of its own digest over the reference message - and no other one.
+fn check_reference_signatures(acc: &mut Acc) {
+    use in_toto::crypto::Signature;
+    let schemes = [("rsassa-pss-sha256", SignatureScheme::RsaSsaPssSha256), ("rsassa-pss-sha512", SignatureScheme::RsaSsaPssSha512)];
+    for (ki, (name, spki, sig256, sig512)) in keys::RSA_REFSIGS.iter().enumerate() {
+        for (si, (sname, scheme)) in schemes.iter().enumerate() {
+            let imports: Vec<(&str, Result<PublicKey, String>)> = vec![
+                ("from_spki", guard_key(|| PublicKey::from_spki(spki, scheme.clone()))),
+                ("from_pem_spki", guard_key(|| PublicKey::from_pem_spki(&pem_of(spki), scheme.clone()))),
+                ("json", {
+                    let j = json!({"keytype": "rsa", "scheme": sname, "keyid_hash_algorithms": DEFAULT_ALGS, "keyval": {"public": pem_of(spki)}}).to_string();
+                    match guard(|| serde_json::from_str::<PublicKey>(&j)) {
+                        Guard::Done(Ok(p)) => Ok(p),
+                        Guard::Done(Err(e)) => Err(e.to_string()),
+                        Guard::Panicked(l, msg) => Err(format!("PANIC {l}: {msg}")),
+                    }
+                }),
+            ];
+            for (iname, res) in imports {
+                acc.evaluations += 1;
+                acc.nontrivial += 1;
+                let witness = || json!({"kind": "refsig", "key": name, "scheme": sname, "import": iname});
+                let pk = match res {
+                    Ok(pk) => pk,
+                    Err(e) => {
+                        acc.violation("standard-spki-rejected:rsa", &format!("the standards-conformant SubjectPublicKeyInfo of RSA key {name} cannot be imported ({iname}, {sname}): {e}"), witness);
+                        continue;
+                    }
+                };
+                // candidates: own digest (must verify), other digest, another key's signature, one bit flipped
+                let own: &[u8] = if si == 0 { sig256 } else { sig512 };
+                let other: &[u8] = if si == 0 { sig512 } else { sig256 };
+                let foreign: &[u8] = keys::RSA_REFSIGS[(ki + 1) % keys::RSA_REFSIGS.len()].2;
+                let mut flipped = own.to_vec();
+                flipped[7] ^= 0x10;
+                for (cname, sig, expect) in [("own", own.to_vec(), true), ("other-digest", other.to_vec(), false), ("another-key", foreign.to_vec(), false), ("one-bit-flipped", flipped, false)] {
+                    let sj = json!({"keyid": id_of(&pk), "sig": util::hex(&sig)});
+                    let sig: Signature = match serde_json::from_value(sj) {
+                        Ok(s) => s,
+                        Err(e) => {
+                            acc.violation("reference-signature:unreadable", &format!("signature object unreadable: {e}"), witness);
+                            continue;
+                        }
+                    };
+                    let got = match guard(|| pk.verify(keys::REFMSG, &sig)) {
+                        Guard::Done(r) => r.is_ok(),
+                        Guard::Panicked(l, m) => {
+                            acc.violation(&format!("panic:{l}"), &m, witness);
+                            continue;
+                        }
+                    };
+                    acc.outcome(if got { "reference-signature-accepted" } else { "reference-signature-rejected" });
+                    if got != expect {
+                        let key = if expect { "reference-signature:own-rejected" } else { "reference-signature:foreign-accepted" };
+                        acc.violation(key, &format!("{name} imported via {iname} as {sname}: the {cname} signature over the reference message is {}", if got { "accepted" } else { "rejected" }), witness);
+                    }
+                }
+            }
+        }
+    }
+}
+
+fn guard_key(f: impl Fn() -> in_toto::Result<PublicKey>) -> Result<PublicKey, String> {
+    match guard(f) {
+        Guard::Done(Ok(p)) => Ok(p),
+        Guard::Done(Err(e)) => Err(format!("{e:?}")),
+        Guard::Panicked(l, msg) => Err(format!("PANIC {l}: {msg}")),
     }
 }
 
@@ -401,10 +484,11 @@ pub fn run(tier: Tier) -> i32 {
         check_paths(&mut acc, m);
     }
     acc.sample(|| json!({"kind": "path", "key": "ed1", "paths": ["from_pkcs8", "from_spki(standard DER)", "from_pem_spki(standard PEM)", "from_ed25519(raw)", "json[...]"]}));
+    check_reference_signatures(&mut acc);
     check_tables(&mut acc, if tier.thorough() { 3 } else { 2 });
     crate::envprobe::judge(&mut acc, "C12:", &mut c.extra);
     c.acc = acc;
-    c.rule = "keys: 6 Ed25519, 3 ECDSA P-256, RSA 2048 x2 / 4096 x1 / 2048 with public exponents 0x800001 and 0x80000001; construction paths: PKCS#8 private key, standard DER and PEM SubjectPublicKeyInfo, raw bytes, 64-byte keypair, JSON with/without a (lying) keyid member and a private member, each with hash-algorithm list absent/default/one/reordered where the path takes one; every RSA material also under the other PSS digest (PKCS#8, SPKI, JSON) in the same process; for each: key id == reference preimage hash, equality across paths, JSON round trip, SPKI re-export identity and re-import. Key tables: every sequence of <= N appended (label, key) entries over labels {id(A), id(B), zeros, id(A) in upper case, A's 8-character prefix + zeros, id(A) with the last digit changed} x keys {A, B, A and B rebuilt without a hash-algorithm list}, parsed, then used end to end with links signed by B".into();
+    c.rule = "keys: 6 Ed25519, 3 ECDSA P-256, RSA 2048 x2 / 3072 / 4096 / 8192 (the largest supported; public key only) / 2048 with public exponents 0x800001 and 0x80000001; construction paths: PKCS#8 private key, standard DER and PEM SubjectPublicKeyInfo, raw bytes, 64-byte keypair, JSON with/without a (lying) keyid member and a private member, each with hash-algorithm list absent/default/one/reordered where the path takes one; every RSA material also under the other PSS digest (PKCS#8, SPKI, JSON) in the same process; for each: key id == reference preimage hash, equality across paths, JSON round trip, SPKI re-export identity and re-import. Reference signatures: RSA 2048/3072/4096/8192 x both PSS digests x import path (DER, PEM, JSON): the OpenSSL-made signature of the same digest verifies, those of the other digest, of another key and with one bit flipped do not. Key tables: every sequence of <= N appended (label, key) entries over labels {id(A), id(B), zeros, id(A) in upper case, A's 8-character prefix + zeros, id(A) with the last digit changed} x keys {A, B, A and B rebuilt without a hash-algorithm list}, parsed, then used end to end with links signed by B".into();
     c.bound_completed = format!("all keys x all paths; tables of <= {} entries", if tier.thorough() { 3 } else { 2 });
     c.assume("reference key-id preimage = securesystemslib (self-tested against Python-made key ids in C11)");
     c.assume("standard SPKI encodings built by template and byte-compared with OpenSSL-generated fixtures");
@@ -420,6 +504,10 @@ pub fn replay(case: &Value) -> Value {
         let want = case["path"].as_str().unwrap_or("");
         let hit = acc.violations.values().find(|v| v.witness["path"] == want).map(|v| v.key.clone());
         return json!({"violation": hit.or_else(|| acc.violations.keys().next().cloned())});
+    }
+    if case["kind"] == "refsig" {
+        check_reference_signatures(&mut acc);
+        return json!({"violation": acc.violations.keys().next()});
     }
     check_tables(&mut acc, 2);
     json!({"violation": acc.violations.keys().next()})
